@@ -3,7 +3,8 @@ Horton / FVS / isometric collections with the model (same order) + every candida
 sufficiency per input (greedy by weight under GF(2) independence reaches the dimension and the optimum)."""
 from gcommon import *
 
-THEOREMS = ["Parmcb.C14." + t for t in ["c14_cand_sound", "c14_parity_label", "c14_iso_subset", "c14_fvs_subset", "c14_transfer"]]
+THEOREMS = ["Parmcb.C14." + t for t in ["c14_cand_sound", "c14_parity_label", "c14_iso_subset", "c14_fvs_subset", "c14_transfer",
+            "c14_phase_sufficient", "c14_sufficient", "c14_sufficient_horton", "c14_sufficient_fvs"]]
 
 def tree_paths(n, WE, src_list, blocks_trees):
     return None
@@ -56,9 +57,9 @@ def oracle(case, blocks3, trees_block):
 
 def run(tier, replay=None):
     res = Result("C14", tier, "proof")
-    res.assumptions = ["c14_sufficient_partial: that each collection contains a minimum cycle basis (Horton / FVS / isometric-class theorems) is NOT proved; it is validated per input by greedy selection against an independent optimum; c14_transfer proves that this is all that is missing",
+    res.assumptions = ["c14_sufficient_iso_partial: sufficiency is proved for the Horton and FVS collections (c14_sufficient_horton / _fvs, for any choice of shortest paths); for the ISOMETRIC sub-collection it is NOT proved (it needs the mutual consistency of the lexicographic paths) and is validated per input by greedy selection against an independent optimum; c14_transfer proves that this is all that is missing",
                        "candidate soundness is proved for trees passing the C12 certificate, which is evaluated per run"]
-    lean_ok = lean_gate(res, "Parmcb.Props.C14", THEOREMS)
+    lean_ok = lean_gate(res, "Parmcb.Props.C14b", THEOREMS)
     binary, log = compile_harness("h_graph.cpp", sanitize=(tier == "thorough"))
     if binary is None:
         res.violation("harness does not compile against the working tree", {"kind": "compile", "log": log[-3000:]}, found=False); return res.finish()
